@@ -708,6 +708,21 @@ def explore_adversarial(c, n):
     c.flush()
 
 
+def explore_directed(c):
+    """every script kind x every per-input flag on a PSBT with 2-3 inputs of that kind, signed by the wallet's root with
+    'whatever the PSBT requests', in memory AND through PSBTView: the digests of NONE / SINGLE depend on the OTHER inputs
+    (sequences, outputs), which one-input PSBTs and ALL never show"""
+    flags = [None, 1, 2, 3, 0x81, 0x82, 0x83]
+    for kind in gw.KINDS:
+        for f in (flags if kind in ("p2pkh", "p2sh-multi", "p2wpkh", "p2tr") else c.rng.sample(flags, 2)):
+            g = gw.gen_signable(c.rng, kinds=[kind], flag=f, nin=c.rng.choice([2, 3]))
+            w = gw.wallet("A")
+            for use_view in (False, True):
+                check_case(c, g, "root:A", w.root, (lambda rec: rec[0] == "A"), None, use_view=use_view)
+        c.flush()
+    c.tally("directed:kind-x-flag")
+
+
 def explore(c, n):
     for k in range(n):
         g = gw.gen_signable(c.rng)
@@ -749,6 +764,7 @@ def run(tier, seed):
                      "of the record the driver evaluates are theorems, Props/C08W); sign.verify (the theorem's conclusion decided per write) and "
                      "the verifier ops sigcheck.* (Spec.Ecdsa.verify / Spec.Bip340.verify over the same record) still evaluate it on every case"]
     c.build_and_audit()
+    explore_directed(c)
     explore(c, 70 if tier == "quick" else 1200)
     explore_adversarial(c, 150 if tier == "quick" else 2000)
     return c.finish(search=lambda cc: (explore(cc, 80), explore_adversarial(cc, 150)))
